@@ -781,6 +781,7 @@ func ghostSort(g *GhostDef) (string, int) {
 
 // closurePre checks the closure's requires over its captured cells at creation time.
 func (x *Exec) closurePre(st *State, ins *ssa.MakeClosure, f *ssa.Function, binds []Value) {
+	x.closureInfer(st, ins, f, binds)
 	k := x.eng.cs.Funcs[funcFullName(f)]
 	if k == nil || len(k.Requires) == 0 {
 		return
@@ -1445,4 +1446,168 @@ func (e *Engine) reachesGhostSet(callee *ssa.Function, g string) bool {
 		}
 	}
 	return false
+}
+
+// ---- inferred closure preconditions -------------------------------------------------------
+//
+// A closure reads its captured variables through cells. For a cell that is never written after
+// the closure is created (constCell) any fact about its content that holds when the closure is
+// created holds at every call. Candidate facts (slice long enough for the constant indices the
+// closure uses, func/pointer/map/interface value non-nil, integer positive / non-negative) are
+// emitted as obligations of class "infer" at the MakeClosure site of the enclosing function;
+// the ones that discharge are assumed at the closure's entry, the others are simply not
+// assumed (the closure then has to be safe without them). Nothing is ever assumed unproved.
+
+type autoCand struct {
+	Text string
+	E    *Expr
+	Obl  string // name of the obligation at the creation site ("" until the parent was executed)
+}
+
+func maxConstIndex(fv *ssa.FreeVar) int {
+	max := -1
+	refs := fv.Referrers()
+	if refs == nil {
+		return max
+	}
+	for _, r := range *refs {
+		ld, ok := r.(*ssa.UnOp)
+		if !ok || ld.Op != token.MUL || ld.Referrers() == nil {
+			continue
+		}
+		for _, u := range *ld.Referrers() {
+			var idx ssa.Value
+			switch t := u.(type) {
+			case *ssa.IndexAddr:
+				if t.X == ssa.Value(ld) {
+					idx = t.Index
+				}
+			case *ssa.Index:
+				if t.X == ssa.Value(ld) {
+					idx = t.Index
+				}
+			}
+			if idx == nil {
+				continue
+			}
+			if c, ok := constInt(idx); ok && c >= 0 && c < 16 && int(c) > max {
+				max = int(c)
+			}
+		}
+	}
+	return max
+}
+
+func (e *Engine) autoCands(f *ssa.Function) []*autoCand {
+	name := funcFullName(f)
+	e.mu.Lock()
+	defer e.mu.Unlock()
+	if e.autoPre == nil {
+		e.autoPre = map[string][]*autoCand{}
+	}
+	if cs, ok := e.autoPre[name]; ok {
+		return cs
+	}
+	var out []*autoCand
+	add := func(text string) {
+		ex, err := ParseExpr(text)
+		if err != nil {
+			return
+		}
+		out = append(out, &autoCand{Text: text, E: ex})
+	}
+	seen := map[string]bool{}
+	for _, fv := range f.FreeVars {
+		if !constCell(fv) || seen[fv.Name()] {
+			continue
+		}
+		seen[fv.Name()] = true
+		pt, ok := fv.Type().(*types.Pointer)
+		if !ok || !token.IsIdentifier(fv.Name()) {
+			continue
+		}
+		n := fv.Name()
+		switch u := pt.Elem().Underlying().(type) {
+		case *types.Slice:
+			for k := 1; k <= maxConstIndex(fv)+1; k++ {
+				add(fmt.Sprintf("len(*%s) >= %d", n, k))
+			}
+		case *types.Signature, *types.Pointer, *types.Map, *types.Interface:
+			add(fmt.Sprintf("*%s != nil", n))
+		case *types.Basic:
+			if u.Info()&types.IsInteger != 0 {
+				add(fmt.Sprintf("*%s > 0", n))
+				add(fmt.Sprintf("*%s >= 0", n))
+			}
+		}
+	}
+	e.autoPre[name] = out
+	return out
+}
+
+// closureInfer emits the candidate facts of closure f as "infer" obligations at its creation site.
+func (x *Exec) closureInfer(st *State, ins *ssa.MakeClosure, f *ssa.Function, binds []Value) {
+	if !x.eng.inferClosures || ins.Parent() != x.fx.fn || f.Parent() != x.fx.fn {
+		return // only in the enclosing function's own verification (not in inlined copies)
+	}
+	cands := x.eng.autoCands(f)
+	if len(cands) == 0 {
+		return
+	}
+	env := map[string]Value{}
+	for i, fv := range f.FreeVars {
+		env[fv.Name()] = binds[i]
+	}
+	for _, c := range cands {
+		func() {
+			defer func() {
+				if r := recover(); r != nil {
+					if _, ok := r.(unsupportedErr); !ok {
+						panic(r)
+					}
+				}
+			}()
+			sc := x.specCtx(st, st.heap, st.heap, env)
+			sc.lenient = true
+			g := sc.evalBool(c.E)
+			key := "closure:" + f.Name() + ":" + c.Text
+			x.eng.oblige(x.fx, st, "infer", key, g, "candidate closure precondition of "+f.Name()+" (assumed by the closure only if proved here): "+c.Text, ins.Pos())
+			c.Obl = x.fx.name + "/infer/" + key
+		}()
+	}
+}
+
+// assumeInferred assumes, at the entry of closure fx.fn, the candidate facts proved at its creation site.
+func (x *Exec) assumeInferred(st *State) {
+	if !x.eng.inferClosures || x.fx.fn.Parent() == nil {
+		return
+	}
+	for _, c := range x.eng.autoCands(x.fx.fn) {
+		if c.Obl == "" {
+			continue
+		}
+		x.eng.mu.Lock()
+		ob := x.eng.obls[c.Obl]
+		x.eng.mu.Unlock()
+		if ob == nil || ob.status() != "unsat" {
+			continue
+		}
+		func() {
+			defer func() {
+				if r := recover(); r != nil {
+					if _, ok := r.(unsupportedErr); !ok {
+						panic(r)
+					}
+				}
+			}()
+			sc := x.specCtx(st, st.old, st.old, x.paramNames(st, nil))
+			st.assume(sc.evalHyp(c.E))
+			x.eng.mu.Lock()
+			if x.eng.inferredUsed == nil {
+				x.eng.inferredUsed = map[string]bool{}
+			}
+			x.eng.inferredUsed[x.fx.name+": "+c.Text] = true
+			x.eng.mu.Unlock()
+		}()
+	}
 }
